@@ -179,6 +179,20 @@ class BaseComponent(Manager):
         return getattr(self, '_unregister_pending', False)
 
     def _do_prepare_unregister_complete(self, e, value):
+        if not self.unregister_pending:
+            return self
+
+        # Unregistrations of descendants that are still under way would be
+        # stranded: their completion is queued in the tree this component
+        # is about to leave. Finish them first, while they can still
+        # announce themselves there.
+        descendants = list(self.components)
+        while descendants:
+            c = descendants.pop()
+            descendants.extend(c.components)
+            if c.unregister_pending:
+                c._do_prepare_unregister_complete(e, value)
+
         # Remove component from tree now
         delattr(self, '_unregister_pending')
         self.fire(unregistered(self, self.parent))
